@@ -278,6 +278,75 @@ theorem isPost_sound {S : List Summary} {p : List Stmt} {A : Pts} (h : isPost S 
   rw [List.all_eq_true] at h
   exact leB_sound (h s hs)
 
+theorem le_linkCell (t a b : List Obj) (c : Cell) : CellLe c (linkCell t a b c) :=
+  ⟨fun _ h => h, fun _ h => mem_union.2 (Or.inl h), fun _ h => mem_union.2 (Or.inl (mem_union.2 (Or.inl h)))⟩
+
+theorem le_link (Q : Pts) (t a b : List Obj) : Le Q (link Q t a b) := by
+  intro z
+  rw [get_link]
+  exact le_linkCell t a b _
+
+theorem le_alias_fold (P : Pts) (x : Var) (ys : List Var) :
+    ∀ (Q : Pts), Le Q (ys.foldl (fun Q y => Pts.add Q x (Pts.get P y)) Q) := by
+  induction ys with
+  | nil => intro Q; exact Le.refl Q
+  | cons y ys ih =>
+    intro Q
+    simp only [List.foldl_cons]
+    exact (le_add Q x _).trans (ih _)
+
+theorem le_links_fold (P : Pts) (args : List (Option Var)) (ret : Var) (ls : List (Nat × Bool × Src)) :
+    ∀ (Q : Pts), Le Q (ls.foldl (fun Q l => link Q (argCell P args l.1).top (cond l.2.1 (sel P args ret l.2.2))
+            (cond (!l.2.1) (sel P args ret l.2.2))) Q) := by
+  induction ls with
+  | nil => intro Q; exact Le.refl Q
+  | cons l ls ih =>
+    intro Q
+    simp only [List.foldl_cons]
+    exact (le_link Q _ _ _).trans (ih _)
+
+/-- every statement only adds to the name table -/
+theorem step_extensive (S : List Summary) (s : Stmt) (P : Pts) : Le P (step S s P) := by
+  cases s with
+  | param x i => exact le_add P x _
+  | global x g => exact le_add P x _
+  | alias x ys => exact le_alias_fold P x ys P
+  | elem x y => exact le_add P x _
+  | fresh x => exact le_add P x _
+  | shallow x ys => exact le_add P x _
+  | pack x ys => exact le_add P x _
+  | store x y => exact le_link P _ _ _
+  | write x => exact Le.refl P
+  | gwrite g => exact Le.refl P
+  | call ret f args =>
+    simp only [step]
+    exact (le_links_fold P args ret _ P).trans (le_add _ ret _)
+
+theorem pass_extensive (S : List Summary) (p : List Stmt) : ∀ (P : Pts), Le P (pass S p P) := by
+  induction p with
+  | nil => intro P; exact Le.refl P
+  | cons s p ih =>
+    intro P
+    simp only [pass, List.foldl_cons]
+    exact (step_extensive S s P).trans (ih _)
+
+theorem step_le_pass (S : List Summary) (s : Stmt) (p : List Stmt) (hs : s ∈ p) :
+    ∀ {A B : Pts}, Le A B → Le (step S s A) (pass S p B) := by
+  induction p with
+  | nil => cases hs
+  | cons t p ih =>
+    intro A B hAB
+    simp only [pass, List.foldl_cons]
+    rcases List.mem_cons.1 hs with h | h
+    · subst h
+      exact (step_mono S s hAB).trans (pass_extensive S p _)
+    · exact ih h (hAB.trans (step_extensive S t B))
+
+theorem passClosed_sound {S : List Summary} {p : List Stmt} {A : Pts} (h : passClosed S p A = true) :
+    ∀ s, s ∈ p → Le (step S s A) A := by
+  intro s hs
+  exact (step_le_pass S s p hs (Le.refl A)).trans (leB_sound h)
+
 theorem nil_le (A : Pts) : Le [] A := by
   intro z
   rw [get_nil]
